@@ -382,7 +382,7 @@ fn mk_bytes(b: &[u8]) -> Value {
 }
 
 // @verif-block props=C09,C01 tier=quick cap=900 group=core doc=subscript_v[i]_on_a_string_/_byte_string_of_length_0..=4_with_ANY_i64_index:_Python's_rule_(element_i_mod_len_for_-len<=i<len,_undefined_otherwise),_never_a_panic
-index_harness!(c09_index_str, 4, mk_str);
+index_harness!(c09_index_str, 4, mk_str); // tier=thorough cap=3600
 index_harness!(c09_index_bytes, 4, mk_bytes);
 // @verif-end
 
